@@ -112,6 +112,16 @@ def _nt_c06(case, obs):
     return any(t.split(':')[1] in ('6', '2') and t.endswith(':1') and int(t.split(':')[0]) < 90 for t in _sections(obs).get('ORDER', []))
 
 
+def conc_stream(name, nq, nt):
+    return dict(name=name, n_quick=nq, n_thorough=nt, nontrivial=lambda c, o: not o.startswith('BAD') and not o.startswith('RACE'),
+                compare=lambda c, o, m: o == m, race=True)
+
+
+CONC_NOTE = ('Trusted: Coq kernel, extraction, OCaml driver, Go harness; sync.Mutex / sync.RWMutex / sync.Once / sync/atomic are assumed to meet their '
+             'documented specification; the Go scheduler and memory model are not modelled: data-race freedom is observed by the race detector on the '
+             'explored schedules (the stream runs under -race with seeded yield perturbation at the verif hooks), not proved.')
+
+
 def chain_stream(nq, nt, nontrivial, name='chain'):
     return dict(name=name, n_quick=nq, n_thorough=nt, nontrivial=nontrivial, compare=_chain_compare, wf_check=True)
 
@@ -223,6 +233,61 @@ PROPS = {
                    'NOT a theorem: it is refuted by known finding D6 and claimed only where the faithful model\'s own plan is justified.',
         level_note=CHAIN_NOTE + ' Known finding D6 (four listed inputs) is replayed on every run.', design_ref='DESIGN.md section 8 (C03)',
         assumptions=['justification clause validated by monitor only; D6 region excluded'],
+    ),
+    'C08': dict(
+        monitor=True,
+        streams=[conc_stream('isolation', 60, 1500), chain_stream(3000, 100000, _nt_bound)],
+        rule='stream isolation: a fixed chain of pure providers (static injector, injector, wrapper calling inner() twice, fallible injector, then a Parallel '
+             'wrapper calling inner() from two goroutines / a wrapper calling inner() three times / an injector, final) invoked by 2-11 goroutines x 20-170 '
+             'invocations each in a shuffled order with distinct arguments, under the race detector with seeded Gosched/sleep perturbation at the yield hooks; '
+             'every concurrent result must equal the result of the same invocation run alone; non-trivial: the scenario ran to completion; plus the chain '
+             'stream (sessions of several invocations: nothing leaks from one invocation into the next)',
+        level_text='Theorems invocations_isolated (interleaving semantics: for every schedule, what an invocation has computed on its private copy is what it '
+                   'computes alone, and the base collection is unchanged — any number of invocations), base_frozen (an invocation never modifies the base '
+                   'values), chain_refines (an invocation\'s result is a function of base, arguments and behaviours), once_exactly_once (racing first '
+                   'invocations run the static chain once); Coq, no axioms.',
+        level_note=CONC_NOTE, design_ref='DESIGN.md section 8 (C08)',
+        assumptions=['that values := baseValues.Copy() yields a private collection is the modelling assumption the stress stream and the chain correspondence test'],
+    ),
+    'C09': dict(
+        monitor=True,
+        streams=[conc_stream('memo', 120, 3000)],
+        rule='stream memo: one Memoize\'d provider (per-invocation, per-invocation fallible, static keyed by init arguments, or with an interface-typed input fed '
+             'nil / "" / 0 / a struct) shared by 1-3 chains, used by 2-8 goroutines x 3-14 uses each with keys drawn from 1-4 values, under the race detector with '
+             'yield perturbation; observed: calls per key (must be 1 for every key used) and equality of the results seen for one key; the scenario is also run '
+             'through the extracted interleaving model on a round-robin schedule; non-trivial: the scenario ran to completion',
+        level_text='Theorem memo_once_per_key (interleaving semantics of the cacher — mutex held across lookup, call, store: for every key assignment, any number '
+                   'of concurrent uses and every schedule the function is called at most once per key and every use that returned observed that call\'s result), '
+                   'with its invariant Minv; Coq, no axioms. Key injectivity and call-through for unhashable inputs are covered by the stream only '
+                   '(defects D2, D12, D13 repaired in /repo).',
+        level_note=CONC_NOTE, design_ref='DESIGN.md section 8 (C09)',
+        assumptions=['Go map keys built from [n]any compare by value equality'],
+    ),
+    'C10': dict(
+        monitor=True,
+        streams=[conc_stream('once', 80, 2000), chain_stream(3000, 100000, _nt_c06, name='static')],
+        rule='stream once: 1-4 chains sharing a Singleton provider, each with its own Cacheable static injector, bound with init functions; 2-13 goroutines race '
+             'init (with different arguments) and invoke on every chain under the race detector with yield perturbation; observed: the Singleton ran once, each '
+             'static chain ran once, every init call of a chain returned the same values; plus the static stream (sequential sessions with repeated init calls)',
+        level_text='Theorems once_exactly_once (any number of racing callers, every schedule: at most one call, every caller that returned observed its result), '
+                   'static_not_rerun, init_idempotent, first_run_sets_done (the static chain runs in the first init / first invoke only; later init arguments '
+                   'are ignored); Coq, no axioms.',
+        level_note=CONC_NOTE, design_ref='DESIGN.md section 8 (C10)',
+        assumptions=['sync.Once.Do runs its argument at most once and returns after it completed'],
+    ),
+    'C12': dict(
+        monitor=True,
+        streams=[conc_stream('debuglock', 60, 1500)],
+        rule='stream debuglock: 2-11 goroutines each Bind three chains, a chosen subset failing (missing provider), under the race detector with yield perturbation '
+             'at the lock hooks; observed: all Binds return (watchdog), failing ones report an error whose DetailedError starts with the plain text and mentions '
+             'no other goroutine\'s collection, succeeding ones yield working chains',
+        level_text='Theorem debug_lock_no_deadlock_no_crosstalk (interleaving semantics of the RWMutex protocol of bindFast / captureDoBindDebugging: for any '
+                   'mix of failing and succeeding Binds and every schedule some unfinished Bind can always step, and every line logged while debugging is on '
+                   'belongs to the Bind holding the write lock) and chain_refines (what runs is the included providers of the final list, which is what the '
+                   'Debugging value is filled from); Coq, no axioms.',
+        level_note=CONC_NOTE + ' Invocations (not Binds) running while a failed Bind is being replayed also log into its trace; that is outside the statement.',
+        design_ref='DESIGN.md section 8 (C12)',
+        assumptions=['Go RWMutex: a waiting writer blocks new readers'],
     ),
     'C14': dict(
         monitor=True,
